@@ -60,6 +60,16 @@ def spec_for(index, seed=0):
     for item in rxs + rules:
         if rng2.random() < 0.45:
             item["formula"] = rng2.choice(["(%s) / 2", "3 * (%s) / 4", "(%s) / 3 + kg / 2", "5 / 2 * (%s)"]) % item["formula"]
+    # a global parameter may be called `t` or `volume` (legal SBML ids; in a bioscrape formula an identifier is looked up among the
+    # species, then the parameters, and only then read as the time / volume keyword)
+    if rng2.random() < 0.2:
+        import re as _re
+        nm = rng2.choice(["t", "volume"])
+        glob = {(nm if g == "q" else g): v for g, v in glob.items()}
+        for item in rxs + rules:
+            item["formula"] = _re.sub(r"\bq\b", nm, item["formula"])
+            if item.get("var") == "q":
+                item["var"] = nm
     return dict(species=sp, globals=glob, reactions=rxs, rules=rules, index=index, seed=seed, hosu=hosu)
 
 
